@@ -66,6 +66,13 @@ let parse_op toks = match toks with
   | ["strtouch"; i; p] -> OStrTouch (nat i, parse_path p)
   | ["strapp"; i; p; b] -> OStrAppend (nat i, parse_path p, hexb b)
   | ["cont"; i; p; k; c; j; sp] -> OCont (nat i, parse_path p, parse_kind k.[0], parse_cop c, nat j, parse_path sp)
+  | ["assignstr"; i; p; j; sp] -> OAssignStrFrom (nat i, parse_path p, nat j, parse_path sp)
+  | ["assignnode"; i; p; j; sp; k] | ["assign"; i; p; j; sp; k] -> OAssignNodeFrom (nat i, parse_path p, nat j, parse_path sp, parse_kind k.[0])
+  (* the converting constructors: `x.~Variant(); new (&x) Variant(value)` is, for the value model and for the
+     heap shape, the assignment of the same value to the root of x *)
+  | ["csets"; i; s] -> OSetScalar (nat i, [], parse_scalar s)
+  | ["csetstr"; i; b] -> OSetStr (nat i, [], hexb b)
+  | ["csetnode"; i; k; items] -> OSetNode (nat i, [], parse_kind k.[0], parse_items items)
   | _ -> failwith ("bad op: " ^ String.concat " " toks)
 
 (* ---- printing ---- *)
@@ -151,7 +158,7 @@ let m_observable (res : string) (st : state) (vs : value list) : string =
 let values_of_state (s : state) : value list =
   List.map (fun o -> match o with Some v -> v | None -> failwith "model: abs failed (dangling handle or fuel)") (abs_vars s)
 
-(* `assign!` / `cont!`: the same operation, not subject to the self-containment exclusion *)
+(* `assign!` / `cont!` / `assignnode!`: the same operation, not subject to the self-containment exclusion *)
 let unguard (toks : string list) : string list * bool = match toks with
   | name :: rest when String.length name > 1 && name.[String.length name - 1] = '!' ->
     (String.sub name 0 (String.length name - 1) :: rest, true)
